@@ -24,7 +24,10 @@ func init() {
 	})
 }
 
-// filterStoreRule checks a publisher's filter loop.
+// c09filter checks a publisher's filter loop: the store of a key into the
+// published data needs the edge "the filter is empty" or "the filter lists the
+// key". Membership idioms: a lookup in a map[string]bool filled from every
+// element of the filter, or slices.Contains(filter, key).
 func c09filter(c *Ctx, fn *ssa.Function, dataType string) {
 	var store *ssa.MapUpdate
 	var mset *ssa.MapUpdate
@@ -39,13 +42,29 @@ func c09filter(c *Ctx, fn *ssa.Function, dataType string) {
 			}
 		}
 	}
-	if store == nil || mset == nil {
-		c.R.Unknown(load.FuncName(fn)+": filter shape", c.pos(fn.Pos()), "expected the allow-map construction and the data store")
+	isFilter := func(v ssa.Value) bool {
+		return flow.Default.Any(v, func(x ssa.Value) bool {
+			return isFieldSel(x, "composite.APIFilteredSecretPublisher", "filter") || isFieldSel(x, "composite.SecretStoreConnectionPublisher", "filter")
+		})
+	}
+	var contains []ssa.CallInstruction
+	for _, x := range cfgx.Calls(fn, nil) {
+		n := cfgx.CalleeName(x)
+		if i := strings.Index(n, "["); i > 0 {
+			n = n[:i]
+		}
+		if n == "slices.Contains" && len(cfgx.CallArgs(x)) == 2 && isFilter(cfgx.CallArgs(x)[0]) {
+			contains = append(contains, x)
+		}
+	}
+	if store == nil || (mset == nil && len(contains) == 0) {
+		c.R.Unknown(load.FuncName(fn)+": filter shape", c.pos(fn.Pos()), "expected the data store and a membership test of the configured filter (allow map or slices.Contains)")
 		return
 	}
 	var allow []cfgx.Edge
 	for _, lc := range cfgx.LenCmps(fn) {
-		if flow.Root(lc.Of) == flow.Root(mset.Map) || lc.Of == mset.Map {
+		ofAllowMap := mset != nil && (flow.Root(lc.Of) == flow.Root(mset.Map) || lc.Of == mset.Map)
+		if ofAllowMap || isFilter(lc.Of) {
 			t, f := lc.Edges()
 			if lc.Eval(0) && !lc.Eval(1) {
 				allow = append(allow, t...)
@@ -54,21 +73,32 @@ func c09filter(c *Ctx, fn *ssa.Function, dataType string) {
 			}
 		}
 	}
-	for _, b := range fn.Blocks {
-		for _, in := range b.Instrs {
-			if lk, ok := in.(*ssa.Lookup); ok && !lk.CommaOk && lk.X == mset.Map {
-				t, _ := cfgx.CondEdges(lk)
-				allow = append(allow, t...)
-				c.R.Check(sameRange(lk.Index, store.Key), load.FuncName(fn)+": allow lookup key", c.pos(lk.Pos()), "the key looked up is the key stored", "the allow-list is consulted with a different key than the one stored")
+	if mset != nil {
+		for _, b := range fn.Blocks {
+			for _, in := range b.Instrs {
+				if lk, ok := in.(*ssa.Lookup); ok && !lk.CommaOk && lk.X == mset.Map {
+					t, _ := cfgx.CondEdges(lk)
+					allow = append(allow, t...)
+					c.R.Check(sameRange(lk.Index, store.Key), load.FuncName(fn)+": allow lookup key", c.pos(lk.Pos()), "the key looked up is the key stored", "the allow-list is consulted with a different key than the one stored")
+				}
 			}
 		}
 	}
-	c.requireCross(load.FuncName(fn)+": data[key]= only if allowed", store, allow, "len(filter)==0 or filter[key]")
+	for _, x := range contains {
+		t, _ := cfgx.CallCondEdges(x)
+		allow = append(allow, t...)
+		c.R.Check(sameRange(cfgx.CallArgs(x)[1], store.Key), load.FuncName(fn)+": allow lookup key", c.pos(x.Pos()), "the key tested is the key stored", "the filter is consulted with a different key than the one stored")
+	}
+	c.requireCross(load.FuncName(fn)+": data[key]= only if allowed", store, allow, "len(filter)==0 or the filter lists the key")
 	c.R.Check(sameRange(store.Key, store.Value), load.FuncName(fn)+": stores the detail's own value", c.pos(store.Pos()), "key and value come from the same connection detail", "the value stored does not belong to the key")
+	if mset == nil {
+		c.R.OK(load.FuncName(fn)+": allow map = the configured filter", c.pos(store.Pos()), "membership is tested on the configured filter itself")
+		return
+	}
 	// the allow map is filled from every element of the filter field
 	fromFilter := flow.Strict.Any(mset.Key, func(v ssa.Value) bool { _, p, _ := flow.AccessPath(v); return strings.HasSuffix(p, "filter[]") || p == "filter" })
 	if !fromFilter {
-		fromFilter = flow.Default.Any(mset.Key, func(v ssa.Value) bool { return isFieldSel(v, "composite.APIFilteredSecretPublisher", "filter") || isFieldSel(v, "composite.SecretStoreConnectionPublisher", "filter") })
+		fromFilter = isFilter(mset.Key)
 	}
 	l := cfgx.LoopOf(mset.Block())
 	by := true
@@ -231,9 +261,8 @@ func c09(c *Ctx) {
 				for _, in := range b.Instrs {
 					if st, ok := in.(*ssa.Store); ok && isFieldSel(st.Addr, "core/v1.Secret", "Data") {
 						nData++
-						_, p, ok := flow.AccessPath(st.Val)
+						r, p, ok := flow.AccessPathC(st.Val)
 						src := flow.Root(underIface(cfgx.CallArgs(gets[0])[2]))
-						r, _, _ := flow.AccessPath(st.Val)
 						c.R.Check(ok && p == "Data" && r == src, load.FuncName(pc)+": ts.Data = fs.Data", c.pos(st.Pos()), "the claim secret's data is the source secret's data", "the data written to the claim secret is not exactly the source secret's data")
 					}
 				}
